@@ -1044,7 +1044,7 @@ func (a *allowerContext) newMembershipAllower(authEvents AuthEventProvider, even
 		return
 	}
 	// If this event comes from a third_party_invite, we need to check it against the original event.
-	if m.newMember.ThirdPartyInvite != nil {
+	if m.newMember.ThirdPartyInvite != nil && m.newMember.Membership == spec.Invite {
 		token := m.newMember.ThirdPartyInvite.Signed.Token
 		if m.thirdPartyInvite, err = NewThirdPartyInviteContentFromAuthEvents(authEvents, token); err != nil {
 			return
